@@ -274,7 +274,7 @@ func c06Epilogue(w *world.World) {
 
 func C06Scenarios(tier string) []*Scenario {
 	var out []*Scenario
-	mon := func() []world.Monitor { return []world.Monitor{&C06Monitor{}} }
+	mon := func() []world.Monitor { return []world.Monitor{&C06Monitor{}, &C08Monitor{RouteKey: "resonate:invoke"}} } // the dispatch discipline holds across crashes too
 	cr := tierInt(tier, 1, 2)
 	workloads := []struct {
 		name    string
